@@ -1,17 +1,59 @@
 #pragma once
 
 #include <algorithm>
+#include <cmath>
 #include <nano/tensor.h>
+#include <type_traits>
 
 namespace nano
 {
+///
+/// \brief returns true if the given (score, feature) candidate improves the current optimum.
+///
+/// NB: ties are broken with the feature index, so that the optimum doesn't depend on the order the features are processed in
+///     (e.g. by which thread).
+///
+inline bool is_better_score(const scalar_t score, const tensor_size_t feature, const scalar_t best_score,
+                            const tensor_size_t best_feature)
+{
+    return std::isfinite(score) && (score < best_score || (score == best_score && feature < best_feature));
+}
+
+namespace detail
+{
+template <class taccumulator, class = void>
+struct has_feature_t : std::false_type
+{
+};
+
+template <class taccumulator>
+struct has_feature_t<taccumulator, std::void_t<decltype(std::declval<const taccumulator&>().m_feature)>> : std::true_type
+{
+};
+
+template <class taccumulator>
+inline constexpr bool has_feature_v = has_feature_t<taccumulator>::value;
+} // namespace detail
+
 ///
 /// \brief min-reduce the given set of accumulators (e.g. per thread) using the `m_score` attribute.
 ///
 template <class taccumulator>
 const auto& min_reduce(const std::vector<taccumulator>& accumulators)
 {
-    const auto op = [](const taccumulator& one, const taccumulator& other) { return one.m_score < other.m_score; };
+    // NB: break ties with the feature index (if available),
+    //     so that the result doesn't depend on which thread has processed which feature
+    const auto op = [](const taccumulator& one, const taccumulator& other)
+    {
+        if constexpr (detail::has_feature_v<taccumulator>)
+        {
+            return one.m_score < other.m_score || (one.m_score == other.m_score && one.m_feature < other.m_feature);
+        }
+        else
+        {
+            return one.m_score < other.m_score;
+        }
+    };
     const auto it = std::min_element(accumulators.begin(), accumulators.end(), op);
     return *it;
 }
